@@ -28,6 +28,21 @@ pub fn replay(_id: &str, path: &str) -> i32 {
             println!("(case has no machine state; source follows)\n{}", src);
             return 0;
         }
+        let _ = (line, idx);
+    }
+    if let (Some(src), Some(stdin)) = (case["src"].as_str(), case["stdin"].as_str()) {
+        // CLI case: run the real binary on the recorded source and stdin script, show what it prints
+        crate::cli::ensure_bin();
+        let mut o = crate::cli::CliOpts::default();
+        o.interpreted = case["interpreted"].as_bool().unwrap_or(false);
+        o.order = case["order"].as_u64();
+        let out = crate::cli::run_cli(src, stdin, &o);
+        println!("source:\n{}\nstdin script: {:?}  interpreted: {}", src, stdin, o.interpreted);
+        println!("observed now: {}", out.summary());
+        println!("stdout in full:\n{}", out.out());
+        return 0;
+    }
+    if let (Some(src), Some(line), Some(idx)) = (case["src"].as_str(), case["line"].as_str(), case["idx"].as_u64()) {
         let asm = match assemble(src) {
             Ok(a) => a,
             Err(e) => {
